@@ -592,4 +592,62 @@ PROPS["C05"] = {
     "assumptions": ["shape exclusion between the seven ASN.1 types is a property of encoding/asn1 (explored on every generated object)"],
 }
 
+def nt_c12(lhs, impl):
+    f = lhs.split(" ")
+    g = f[f.index("G"):]
+    if "M" in f:
+        m = f[f.index("M"):]
+        return ("mut", g[3], m[1][:3], m[2], impl[:2])
+    nid = g[6] if len(g) > 6 else "?"
+    return ("key", g[3], g[4] != "-", g[5], nid, hash(tuple(g[7:15])) % 50, impl[:2])
+
+PROPS["C12"] = {
+    "modules": ["WhatIs.Props.C12"],
+    "theorems": ["WhatIs.C12.reserialize_exact", "WhatIs.C12.parsed_length", "WhatIs.C12.fingerprint_rfc4880", "WhatIs.C12.kdf_witness",
+                 "WhatIs.C12.mpi_bits_declared"],
+    "facts": {},
+    "nontrivial": nt_c12,
+    "rule": "v4 keys written by the harness's OWN OpenPGP writer (own packet framing, own framing of signed data, signatures made with the "
+            "Go standard library): primaries RSA-1024/2047, DSA, ECDSA P-256/384/521, EdDSA; subkeys RSA, ECDH P-256 and cv25519, ECDSA "
+            "(cross-signed), EdDSA; 1..3 identities; creation times 1, 86399, 86400, 2^31-1, 2^31, 2^32-1; key lifetimes absent/0/1/1 year/"
+            "2^32-1; issuer in hashed or unhashed area; all 64 key-flag octets; fingerprint reference = SHA-1 over the packet body as written. "
+            "distinct non-trivial = distinct (algorithm, size?, curve, #identities, identity/subkey parameter hash, outcome)",
+    "design_ref": "DESIGN.md §5 C12",
+    "level_text": "Proof: for ALL byte strings, whatever the model of PublicKey.parse accepts is re-serialised octet for octet (declared MPI bit "
+                  "lengths kept), a parsed body is shorter than 2^16 so the uint16 prefix arithmetic does not wrap, hence the fingerprint is "
+                  "the hash of 0x99 || len || body exactly as in the input and the key ID its low 64 bits; the size shown is the declared bit "
+                  "length. The ECDH KDF-length hypothesis is needed (witness theorem; recorded finding D26). Usage flags, dates and expiry are "
+                  "tied by the differential run against the writer's ground truth (UTC), not proved.",
+    "level_note": "Trusted: Lean kernel; SHA-1 as an abstract function; the harness's OpenPGP writer as ground truth; curve-point validity "
+                  "checks of the real parser are not modelled (it accepts a subset of the model). GnuPG is not installed: no second reference.",
+    "technique": "Lean 4 proof (parse/serialise round trip for all inputs; length bound; RFC 4880 §12.2 fingerprint input) + differential correspondence against an independent OpenPGP writer",
+    "trusted_base": ["harness OpenPGP writer + Go crypto (reference fingerprints, signatures)", "vendored packet parser is what is modelled"],
+    "assumptions": ["SHA-1 is a function of its input"],
+}
+
+PROPS["C11"] = {
+    "modules": ["WhatIs.Props.C11"],
+    "theorems": ["WhatIs.C11.identity_bound", "WhatIs.C11.subkey_bound", "WhatIs.C11.nothing_verifies_rejected",
+                 "WhatIs.C11.uid_framing_injective", "WhatIs.C11.key_framing_injective"],
+    "facts": {},
+    "nontrivial": nt_c12,
+    "gen_timeout": 3000,
+    "rule": "for each primary algorithm (RSA-1024/2047, DSA, ECDSA P-256/384/521, EdDSA) a key with two identities, a cross-signed signing "
+            "subkey and an encryption subkey, then single-bit flips inside every signed region and signature value: primary key body, user "
+            "ID bodies, subkey bodies, hashed subpacket areas, hash prefixes, signature MPI values (every bit for regions <= 64 bits, every "
+            "3rd/7th/23rd for larger ones in the quick tier; every bit / every 3rd in thorough). The mutated identity/subkey must disappear or "
+            "the key be rejected. distinct non-trivial = distinct (primary algorithm, owner kind, region, outcome)",
+    "design_ref": "DESIGN.md §5 C11",
+    "level_text": "Proof: for ALL packet lists and ANY behaviour of signature verification, the model of ReadEntity lists an identity only if "
+                  "one of the input's signature packets is a positive/generic certification issued by the primary key that verifies for "
+                  "exactly that user ID, and a subkey only with a binding/revocation signature that verifies for exactly that subkey; if "
+                  "nothing verifies the key is rejected; the framing of the signed data is injective in (key body, user ID or subkey body, "
+                  "hashed area). That a changed message does not verify is the cryptographic assumption: exhibited mutant by mutant.",
+    "level_note": "Trusted: Lean kernel; hash and public-key verification as oracles (second-preimage resistance / unforgeability are "
+                  "assumed, not proved); revocation-signature handling of ReadEntity is simplified in the model (the code rejects more).",
+    "technique": "Lean 4 proof (invariant over an unbounded packet list with oracle verification; injective framing) + bit-flip exploration with an independent OpenPGP writer",
+    "trusted_base": ["Go crypto primitives", "harness OpenPGP writer"],
+    "assumptions": ["cryptographic: a changed signed message or signature value does not verify"],
+}
+
 NOT_CLAIMED = {}
